@@ -241,7 +241,7 @@ pub fn expect_op(op: &Op, mark: &str, result: &OpResult, frame_max: usize, consu
                 cancelled[*slot] = true;
             }
         }
-        Op::ListenReturns | Op::ListenConfirms | Op::DropReturns | Op::DropConfirms | Op::ReadReturns | Op::ReadConfirms | Op::Yield | Op::Gate(_) => {}
+        Op::ListenReturns | Op::ListenConfirms | Op::DropReturns | Op::DropConfirms | Op::ReadReturns | Op::ReadConfirms | Op::ReadOld | Op::Yield | Op::Gate(_) => {}
         Op::AckAll => v.push(ExpFrame::Method(AMQPClass::Basic(B::Ack(basic::Ack { delivery_tag: 0, multiple: true })))),
         Op::NackAll { requeue } => v.push(ExpFrame::Method(AMQPClass::Basic(B::Nack(basic::Nack { delivery_tag: 0, multiple: true, requeue: *requeue })))),
         Op::ForeignAck { .. } => {}
